@@ -356,8 +356,35 @@ class GensProp(props.BaseProp):
 
 C16 = props.register(GensProp())
 C16.manifest = {
-    "text": "TO BE FILLED",
-    "note": "TO BE FILLED",
-    "technique": "Coq proof (induction over the gap stream / list comprehensions, vm_compute on extracted data) + "
-                 "differential correspondence vs vm_compute model + statistical oracle",
+    "text": "Unbounded Coq theorems about faithful transcriptions of the three generators over the twelve-field "
+            "graph state (after the fix commits for F9, F10, F11 and the NaN acceptance F20). complete_graph(n,d), "
+            "every n: exactly the nodes 0..n-1 once each, exactly one edge per ordered / unordered pair of distinct "
+            "nodes, n(n-1) resp. n(n-1)/2 edges (C16_complete). fast_gnp_random_graph, for EVERY stream of "
+            "non-negative gaps, every 0 <= n <= i32::MAX, every 0 < p < 1 and both directions: success, nodes exactly "
+            "0..n-1, no self-loop, no repeated pair in either orientation (C16_gnp_structural); the emitted pairs "
+            "are exactly slot(t_1), slot(t_2), ... of the published Batagelj-Brandes walk t_j = b(t_(j-1)+1+k_j) cut "
+            "off at N - triangle index v(v-1)/2+w undirected, n x n grid with the diagonal bump directed "
+            "(C16_gnp_slots); every admissible pair is emitted by some gap stream (C16_gnp_every_pair_possible, "
+            "constructive); no gap stream makes a checked i64 operation overflow (C16_gnp_no_panic); p outside (0,1) "
+            "incl. NaN and infinities gives InvalidArgument (C16_rejects_p). karate_club_graph: the adjacency literal "
+            "is re-extracted from social.rs on every run and re-proved by vm_compute to be 34x34, 0/1, symmetric, "
+            "zero-diagonal, 78 edges, equal to the NetworkX Zachary edge list, and the modelled constructor returns "
+            "exactly that graph (C16_karate_is_zachary, C16_karate_graph). Correspondence: the harness recomputes "
+            "the real gap stream of each seed and the model must reproduce the implementation's node list and edge "
+            "list exactly (debug and release builds).",
+    "note": "partial: distributional claim cited (Batagelj-Brandes 2005) and sampled, not proved - the oracle checks on "
+            "the implementation that the mean edge count over >= 200 seeds per (n,p,directed) lies within "
+            "p*N*(1 +- 1/(n-1)) +- 5 sigma and that every possible pair occurs for n <= 8; no probability theory is "
+            "formalised. The theorems take non-negative gaps as a hypothesis; that the computed gap "
+            "(ln(1-u)/ln_1p(-p)) as i64 is non-negative and that equal seeds give equal streams is binary64 / ChaCha20 "
+            "territory: not modelled, checked per case (the real stream is printed by the harness and fed to the "
+            "model). For n > 12 the correspondence evaluates the edge-tuple vector of the model (gnp_pairs / "
+            "complete_pairs) instead of building the twelve-field state inside Coq; the theorems (GensCreationOk) "
+            "prove the graph built from that vector has exactly those nodes and edges. Trusted: Coq kernel + "
+            "vm_compute, harness/printers/diff, tools/gen_karate.py (tokenizer-level extractor), itertools "
+            "combinations/permutations modelled as lexicographic enumerations. Axioms: none (Closed under the global "
+            "context) for all 8 pinned theorems.",
+    "technique": "Coq proof (induction over the gap stream / list comprehensions / creation invariant, vm_compute on "
+                 "extracted data) + differential correspondence vs vm_compute model fed with the real gap stream + "
+                 "statistical oracle on the implementation",
 }
